@@ -5,12 +5,23 @@ pub mod c10;
 pub mod c11;
 pub mod c12;
 pub mod c13;
+pub mod c15;
+pub mod explore;
+pub mod trees;
 pub mod lattice;
 pub mod paths;
 pub mod plan;
 
 use crate::runner::*;
 use serde_json::Value;
+
+fn trees_len_k<K: crate::flat::Kind>(case: &crate::exec::PlanCase, a: &[f64], b: &[f64]) -> f64 {
+    plan::KSpace::<K>::new(&case.space).map(|k| k.d(a, b)).unwrap_or(f64::NAN)
+}
+/// distance between two flat states in the case's real space
+pub fn trees_len(case: &crate::exec::PlanCase, a: &[f64], b: &[f64]) -> f64 {
+    crate::with_kind!(case.space.kind, trees_len_k, case, a, b)
+}
 use std::time::Instant;
 
 const A_PLAN: &[&str] = &[
@@ -73,6 +84,21 @@ pub fn run_property(id: &str, opts: &Opts) -> i32 {
             A_PLAN,
             Value::Null,
         ),
+        "C15" => (
+            vec![run_part::<c15::C15Explore>(opts), run_part::<c15::C15Random>(opts), run_part::<c15::C15Chunked>(opts)],
+            A_PLAN,
+            Value::Null,
+        ),
+        "C16" => (
+            vec![run_part::<c15::C16Explore>(opts), run_part::<c15::C16Random>(opts), run_part::<c15::C16GoalBias>(opts)],
+            A_PLAN,
+            Value::Null,
+        ),
+        "C17" => (
+            vec![run_part::<c15::C17Explore>(opts), run_part::<c15::C17Random>(opts), run_part::<c15::C17VsRrt>(opts)],
+            A_PLAN,
+            Value::Null,
+        ),
         "C09" => (
             vec![run_part::<c09::C09>(opts)],
             &[
@@ -112,6 +138,15 @@ pub fn replay(opts: &Opts, doc: &Value) -> i32 {
     try_part!(c11::C11);
     try_part!(c12::C12);
     try_part!(c13::C13);
+    try_part!(c15::C15Explore);
+    try_part!(c15::C15Random);
+    try_part!(c15::C15Chunked);
+    try_part!(c15::C16Explore);
+    try_part!(c15::C16Random);
+    try_part!(c15::C16GoalBias);
+    try_part!(c15::C17Explore);
+    try_part!(c15::C17Random);
+    try_part!(c15::C17VsRrt);
     match res {
         None => {
             out("replay: no part accepts this file");
